@@ -23,7 +23,6 @@ from .common import block_always_raises
 # (module suffix, kind, structural shape of the consumer) -> reason.  Keys are structural (module + how the
 # set is consumed), not names: renaming locals or extracting a helper inside the module does not change them.
 R1_TABLE = {
-    ("namedtensor.stage2.cse", "listcomp", "[D[k] for k in S]"): "order of the candidate list only decides the numbering of the fresh axis names cse.<n>; names are compared for equality only (C08.R1) and nested/overlapping candidates are removed before replacement",
     ("util.solver", "list", "list(set(X))"): "de-duplicated equation list handed to the solver; the solution set of an equation system does not depend on equation order (assumption)",
     ("util.solver", "iter", "next(iter(S))"): "next(iter(class_constants)) is only used when the class has exactly one constant; with more than one the function raises SolveExceptionNoSolution before returning",
     ("util.solver", "list", "list(S) in raise-argument"): "argument of the SolveExceptionNoSolution that is raised (message only)",
